@@ -158,3 +158,175 @@ SPECS["C10"] = dict(
                 "every pivoting path of the real code; residual identities and the 'refused only if singular' claim proven by the SMT solver"),
     level_note="rounding and sizes above the bound not covered; trusted: g++, Eigen, z3/cvc5, symx",
 )
+
+
+# ------------------------------------------------------------------------------------------------
+# mode A: solver glue on kernel contracts (C01, C02, C04, C05, C12, C13)
+GLUE_STUBS = ["K1 TridiagEigen<S> / K2 UpperHessenbergEigen<S>: fresh Ritz values and vectors per call (K2: real values have imaginary part exactly 0, complex ones are adjacent "
+              "exact conjugates; the real/complex pattern is a nondeterministic choice explored exhaustively)",
+              "K3 Arnoldi::init, Lanczos/Arnoldi::factorize_from, compress_V: fresh (V,H,f,beta>=0), counter advanced by the number of applications, beta=0 when the basis spans the whole "
+              "space; the stub checks its precondition 'the stored factorization is valid at dimension from_k'",
+              "K4 TridiagQR / UpperHessenbergQR / DoubleShiftQR: record the shift, return a fresh (tridiagonal / Hessenberg) Q'HQ",
+              "each contract is checked on the real kernel under C07 (K3), C08 (K4), C09 (K1, K2, small n)"]
+GLUE_ASSUME = ["exact real arithmetic", "kernels behave as their contracts (assume-guarantee; the real kernels are checked separately)",
+               "general solver: no exact tie in the selection key between a complex Ritz value and a value other than its conjugate, and no two coinciding conjugate pairs "
+               "(without this the solver finds Ritz states for which GenEigsBase::restart indexes m_ritz_val[ncv]; no public-API input reproducing them was found in 1.5e5 concrete runs)"]
+GLUE_FUNCS_SYM = ["HermEigsBase::init, compute, restart, num_converged, nev_adjusted, retrieve_ritzpair, sort_ritzpair, eigenvalues, eigenvectors(nvec), info, num_operations",
+                  "SymEigsSolver ctor, SymEigsShiftSolver ctor + sort_ritzpair", "Spectra::argsort", "Lanczos::compress_H"]
+GLUE_FUNCS_GEN = ["GenEigsBase::init, compute, restart, num_converged, nev_adjusted, retrieve_ritzpair, sort_ritzpair, eigenvalues, eigenvectors(nvec), is_complex, is_conj",
+                  "GenEigsSolver ctor, GenEigsRealShiftSolver ctor + sort_ritzpair", "SortEigenvalue<complex, Rule>", "Arnoldi::compress_H (both overloads)"]
+
+
+def reg_post(programs):
+    def post(ctx, spec):
+        for src, args in programs:
+            D.run_regression(ctx, src, args)
+    return post
+
+
+def c01_jobs(tier):
+    if tier == "quick":
+        return [dict(harness="sym_glue", pattern=r"^sym/n4k2m3/[A-Za-z]+/LargestAlge/maxit[01]/ic(/symtol)?$|^symshift/n4k2m3/.*/maxit[01]/|^hist/n3k1m2/.*/maxit[01]/|^sym/n3k1m2/.*/maxit2/ic$",
+                     label="symmetric glue (4,2,3) maxit<=1, (3,1,2) maxit<=2, histories", deadline=280)]
+    return [dict(harness="sym_glue", pattern=r"^(sym|symshift)/n(4k2m3|3k1m2|5k2m4|5k3m4|6k1m3)/.*/maxit[012]/|^hist/n(3k1m2|4k2m3)/.*/maxit[012]/|^sym/n3k1m2/.*/maxit3/", label="symmetric glue, maxit<=2(3)",
+                 deadline=3300)]
+
+
+SPECS["C01"] = dict(
+    run=std_run, jobs=c01_jobs, post=reg_post([("c01_stale_flags.cpp", ()), ("c01_compute_twice.cpp", ())]),
+    explanation=("Generation consistency of the symmetric solvers over call histories, decided on the REAL glue code (HermEigsBase / SymEigsSolver / SymEigsShiftSolver / argsort) executed "
+                 "symbolically on top of kernel contracts: Ritz values, Ritz vectors, residual norm and tol-scaled thresholds are symbols, every comparison in num_converged / nev_adjusted / "
+                 "std::sort forks, so the paths cover every Ritz data the kernels may produce. After every compute() the solver proves for each pair handed back: it is a Ritz pair of the "
+                 "LATEST decomposition of the CURRENT factorization (the one eigenvectors() multiplies by V), it passed |est|*beta < tol*max(eps^(2/3),|theta|) on that factorization (in exact "
+                 "arithmetic this is ||Ax-theta x|| < tol*scale because A(Vy)-theta(Vy)=f*y_last under the Krylov invariant of C07), its vector is V*y of the same index, no pair is returned twice, "
+                 "and the kernels were only called inside their contract (factorize_from on a factorization valid at from_k). Histories: init;compute(maxit) / init;compute;compute / "
+                 "init;compute;init;compute, symbolic tol, shift-and-invert back-transformation 1/nu+sigma. Two concrete replay drivers of the defects found and fixed this way are re-run on every check."),
+    functions=GLUE_FUNCS_SYM, stubs=GLUE_STUBS, assumptions=GLUE_ASSUME,
+    bounds={"quick": {"(n,nev,ncv)": "(4,2,3) maxit 0,1; (3,1,2) maxit 0..2", "rules": "5 selection rules", "histories": "ic, icc, icic"},
+            "thorough": {"(n,nev,ncv)": "(3,1,2),(4,2,3),(5,2,4),(5,3,4),(6,1,3) maxit<=2 (3 for (3,1,2))", "histories": "ic, icc, icic"}},
+    outside=[ROUNDING, "orthonormality X'X=I of the returned vectors relies on V'V=I (C07) and Z'Z=I (C09)", "HermEigsSolver (complex Hermitian) shares HermEigsBase; not instantiated separately",
+             "convergence of the iteration itself"],
+    policy=dict(events="ignore", allow_cut=False),
+    technique="symbolic execution of the real solver glue over kernel contracts (assume-guarantee); z3 decides per path that every returned pair passed the convergence test on the current factorization",
+    level_text=("bounded symbolic verification of the solver's sequencing logic: all Ritz data / residual norms / tolerances, every path of the real restart loop up to maxit<=1..3 at sizes up to (6,1,3); "
+                "kernels abstracted by contracts that are checked separately"),
+    level_note="assume-guarantee over K1,K3,K4; exact arithmetic; small (n,nev,ncv,maxit); trusted: g++, Eigen, z3, symx",
+)
+
+
+def c02_jobs(tier):
+    if tier == "quick":
+        return [dict(harness="gen_glue", pattern=r"^gen/n5k1m3/[A-Za-z]+/LargestMagn/maxit[01]/ic$|^genshift/n5k1m3/.*/maxit[01]/|^genhist/n5k1m3/.*/maxit0/|^gen/n5k2m4/LargestMagn/LargestMagn/maxit0/",
+                     label="general glue (5,1,3) maxit<=1, (5,2,4) maxit 0, histories", deadline=280)]
+    return [dict(harness="gen_glue", pattern=r"^(gen|genshift)/n(5k1m3|5k2m4)/.*/maxit[012]/|^gen/n(6k2m5|6k3m5|7k1m6)/.*/maxit[01]/|^genhist/n(5k1m3|5k2m4)/.*/maxit[01]/", label="general glue", deadline=3300)]
+
+
+SPECS["C02"] = dict(
+    run=std_run, jobs=c02_jobs, post=reg_post([("c01_stale_flags.cpp", ("gen",)), ("c01_compute_twice.cpp", ("gen",))]),
+    explanation=("Same decision as C01 for the general solvers: the real GenEigsBase / GenEigsSolver / GenEigsRealShiftSolver glue runs symbolically over contracts for the Arnoldi kernels, the "
+                 "Hessenberg eigen-solver (complex Ritz data: real values with imaginary part exactly 0, complex ones as adjacent exact conjugates, pattern chosen nondeterministically) and the QR "
+                 "helpers. Proven per path: every returned (lambda,x) is a Ritz pair of the latest decomposition of the current factorization, passed the convergence test on it, x = V*y of the same "
+                 "index, no pair twice (no eigenvalue overwritten by its neighbour), lambda is reported in A's spectrum (sigma + 1/nu in complex arithmetic for the real-shift solver), every applied "
+                 "double shift is (2 Re mu, |mu|^2) of an unwanted Ritz value whose conjugate is stored next to it, a single real shift is only taken from a value with imaginary part 0, and the "
+                 "kept dimension never splits a conjugate pair. Concrete replay drivers of the two fixed defects re-run every time."),
+    functions=GLUE_FUNCS_GEN, stubs=GLUE_STUBS, assumptions=GLUE_ASSUME,
+    bounds={"quick": {"(n,nev,ncv)": "(5,1,3) maxit 0,1; (5,2,4) maxit 0", "rules": "6 selection rules", "histories": "ic, icc, icic"},
+            "thorough": {"(n,nev,ncv)": "(5,1,3),(5,2,4) maxit<=2; (6,2,5),(6,3,5),(7,1,6) maxit<=1"}},
+    outside=[ROUNDING, "GenEigsComplexShiftSolver's root selection (numerical conditioning); its operator-shift side effect is decided under C06", "unit norm of x relies on K2's unit-norm contract (C09)",
+             "convergence of the iteration itself"],
+    policy=dict(events="ignore", allow_cut=False),
+    technique="symbolic execution of the real general-solver glue over kernel contracts; z3/cvc5 decide per path convergence-on-current-factorization, pairing and shift obligations",
+    level_text="bounded symbolic verification of the general solver's sequencing, pairing and shift logic over all Ritz data allowed by the kernel contracts, sizes up to (7,1,6), maxit<=2",
+    level_note="assume-guarantee over K2,K3,K4; exact arithmetic; no-foreign-tie assumption on the selection key; small sizes",
+)
+
+
+def c05_jobs(tier):
+    if tier == "quick":
+        return [dict(harness="sym_glue", pattern=r"^sym/n4k2m3/(LargestMagn|BothEnds)/(LargestMagn|SmallestAlge|SmallestMagn)/maxit[01]/ic$|^sym/n3k1m2/.*/maxit[012]/ic$|^hist/n3k1m2/.*/maxit1/icic$",
+                     label="symmetric: all sorting rules, accessors, counters", deadline=200),
+                dict(harness="gen_glue", pattern=r"^gen/n5k1m3/(LargestReal|LargestMagn)/(SmallestReal|SmallestImag)/maxit[01]/ic$|^genshift/n5k1m3/LargestReal/SmallestReal/maxit[01]/|^genhist/n5k1m3/.*/maxit0/",
+                     label="general: sorting rules, accessors, counters", deadline=200)]
+    return [dict(harness="sym_glue", pattern=r"^(sym|symshift|hist)/n(3k1m2|4k2m3|5k2m4)/.*/maxit[012]/", label="symmetric", deadline=3000),
+            dict(harness="gen_glue", pattern=r"^(gen|genshift|genhist)/n(5k1m3|5k2m4)/.*/maxit[01]/", label="general", deadline=3000)]
+
+
+SPECS["C05"] = dict(
+    run=std_run, jobs=c05_jobs,
+    explanation=("Accessor / count / ordering / status consistency decided on the real glue code over kernel contracts (same engine as C01/C02), for every path of the restart loop: "
+                 "compute()'s return value == eigenvalues().size() == eigenvectors().cols() <= nev; info()==Successful iff that number is nev, else NotConverging; before compute() info()==NotComputed and "
+                 "the accessors are empty (fresh object and after init()); the i-th value and i-th vector column carry the same Ritz index; eigenvectors(m) for m=0..nev+1 is the first min(m,count) "
+                 "columns; the values are ordered by the sorting rule (solver query on symbolic values, on the back-transformed values in shift mode); at most maxit restarts; num_operations() equals the "
+                 "applications the kernels perform since init() and stays within 2+2*ncv*(maxit+1); the glue never applies the user's operator itself. That the real kernels advance the counter by "
+                 "exactly their own applications (including breakdown restarts) is decided on the real Arnoldi/Lanczos code under C07."),
+    functions=GLUE_FUNCS_SYM + GLUE_FUNCS_GEN, stubs=GLUE_STUBS, assumptions=GLUE_ASSUME,
+    bounds={"quick": {"symmetric": "(4,2,3) maxit 0,1 with 3 sorting rules; (3,1,2) maxit 0..2 all rules", "general": "(5,1,3) maxit 0,1"},
+            "thorough": {"symmetric": "(3,1,2),(4,2,3),(5,2,4) maxit<=2", "general": "(5,1,3),(5,2,4) maxit<=1"}},
+    outside=[ROUNDING, "the complex-shift solver's 2*nev probe solves (outside the counted iteration by the property's own wording)", "num_iterations()"],
+    policy=dict(events="ignore", allow_cut=False),
+    technique="symbolic execution of the real solver glue over kernel contracts; path-wise structural checks plus z3 ordering obligations on symbolic eigenvalues",
+    level_text="bounded symbolic verification of accessor/count/order/status consistency over all Ritz data and convergence patterns, sizes up to (5,2,4), maxit<=2",
+    level_note="assume-guarantee over kernel contracts; the counter increments inside the kernels are covered by C07",
+)
+
+
+def c04_jobs(tier):
+    q = [dict(harness="sym_glue", pattern=r"^(full|fullshift)/|^sym/n5k2m4/[A-Za-z]+/LargestAlge/maxit0/ic$|^sym/n4k2m3/BothEnds/.*/maxit1/ic$", label="symmetric: full-space exactness, rule = set", deadline=200),
+         dict(harness="gen_glue", pattern=r"^(genfull|genfullshift)/|^gen/n5k2m4/[A-Za-z]+/LargestMagn/maxit0/ic$", label="general: full-space exactness, rule = set", deadline=200),
+         dict(harness="c08_qr", pattern=r"^tridiag-exact-shift/n2", label="exact-shift deflation", deadline=100)]
+    if tier == "quick":
+        return q
+    return [dict(harness="sym_glue", pattern=r"^(full|fullshift)/|^sym/n(5k2m4|5k3m4|6k2m5)/.*/maxit[01]/ic$", label="symmetric", deadline=3000),
+            dict(harness="gen_glue", pattern=r"^(genfull|genfullshift)/|^gen/n(5k2m4|6k2m5|6k3m5)/.*/maxit[01]/ic$", label="general", deadline=3000),
+            dict(harness="c08_qr", pattern=r"^tridiag-exact-shift/", label="exact-shift deflation", deadline=600)]
+
+
+SPECS["C04"] = dict(
+    run=std_run, jobs=c04_jobs,
+    explanation=("Mechanism-level decision of 'the converged set is what the rule names' (the convergence theory itself is outside any bounded encoding): on the real glue over kernel contracts, "
+                 "(1) full-space exactness: with ncv = n the factorization is exact (beta = 0), compute() must report Successful and the returned set must be the rule's top-nev of the ncv eigenvalues "
+                 "the eigen-kernel hands back - proven by z3 against a reference top-k written independently (|x|, x, Re, |Im|; BothEnds = ceil(k/2) largest + floor(k/2) smallest by counting), for every "
+                 "rule each solver supports; (2) in shift mode the rule acts on nu and the result is reported as sigma + 1/nu; (3) whenever a run ends Successful the returned set is the rule's top-nev of "
+                 "the Ritz values of the final decomposition; (4) wanted values are never purged: every restart keeps nev <= k < ncv and applies exactly the ncv-k stored values at positions >= k as "
+                 "shifts (pairs as double shifts); (5) an exact-eigenvalue shift deflates the last row of T in the real TridiagQR."),
+    functions=GLUE_FUNCS_SYM + GLUE_FUNCS_GEN + ["TridiagQR::compute, matrix_QtHQ (exact shift)"], stubs=GLUE_STUBS, assumptions=GLUE_ASSUME,
+    bounds={"quick": {"full-space": "(3,1,3),(3,2,3),(4,2,4),(4,3,4),(5,2,5) symmetric; (3,1,3),(4,1,4),(4,2,4),(5,2,5) general; all supported rules; plain + real shift",
+                      "selection": "(5,2,4) maxit 0, (4,2,3) BothEnds maxit 1", "exact shift": "n=2"},
+            "thorough": {"selection": "up to (6,3,5) maxit<=1", "exact shift": "n<=3"}},
+    outside=["that the iteration CONVERGES to those values for a spectrum with gaps (convergence theory)", "generalized modes (decided at operator level under C03), Davidson/LOBPCG/SVD selection", ROUNDING],
+    policy=dict(events="ignore", allow_cut=False),
+    technique="symbolic execution of the real selection / restart glue over kernel contracts; z3 proves set equality with an independent top-k reference for every rule",
+    level_text="mechanism-level bounded symbolic verification: rule-to-set correspondence on exact (full-space) factorizations and on every Successful path; shifts = unwanted tail",
+    level_note="convergence theory outside; assume-guarantee over kernel contracts; sizes up to (6,3,5)",
+)
+
+
+def c13_jobs(tier):
+    q = [dict(harness="sym_glue", pattern=r"^nevadj/", label="restart-size function (symmetric), all (nev,ncv) with ncv<=8, ncv-nev<=4", deadline=200, sanitize=True),
+         dict(harness="gen_glue", pattern=(r"^gennevadj/k\dm[3-6]/" if tier == "quick" else r"^gennevadj/"), label="restart-size function (general), ncv<=6 (thorough 8), ncv-nev<=4", deadline=(200 if tier == "quick" else 900), sanitize=True),
+         dict(harness="sym_glue", pattern=r"^sym/n(6k1m3|4k2m3)/LargestMagn/LargestAlge/maxit1/ic$|^sym/n6k2m5/LargestMagn/LargestAlge/maxit0/ic$", label="whole runs under ASan/UBSan (symmetric)", deadline=200, sanitize=True),
+         dict(harness="gen_glue", pattern=r"^gen/n5k1m3/LargestImag/LargestMagn/maxit1/ic$|^gen/n6k2m5/LargestMagn/LargestMagn/maxit0/ic$", label="whole runs under ASan/UBSan (general)", deadline=200, sanitize=True)]
+    if tier == "quick":
+        return q
+    return q + [dict(harness="sym_glue", pattern=r"^sym/n(6k2m5|7k1m6|5k3m4)/LargestMagn/LargestAlge/maxit1/ic$", label="whole runs, larger sizes (symmetric)", deadline=3000, sanitize=True),
+                dict(harness="gen_glue", pattern=r"^gen/n(6k2m5|6k3m5|7k1m6|7k2m6)/LargestMagn/LargestMagn/maxit1/ic$", label="whole runs, larger sizes (general)", deadline=3000, sanitize=True)]
+
+
+SPECS["C13"] = dict(
+    run=std_run, jobs=c13_jobs,
+    explanation=("Memory safety / work bound / index discipline of compute(), decided symbolically on the real restart logic: (1) restart-size function by state injection - the real nev_adjusted() "
+                 "and restart() are run from an ARBITRARY Ritz state (symbolic values and estimates; for the general solver every real/complex pattern with adjacent conjugates) for every legal (nev,ncv) "
+                 "with ncv<=8 and every nconv in [0,nev): 1 <= k < ncv, k >= nev, no conjugate pair split, compress/refactorize called inside their contracts, the factorization is valid at ncv afterwards; "
+                 "(2) whole runs of compute() over kernel contracts, harness built with Eigen's index assertions turned into exceptions and with AddressSanitizer+UBSan: any assertion, sanitizer report or "
+                 "foreign exception on an explored path is a violation; operator applications <= 2+2*ncv*(maxit+1) on every path; (3) exact-arithmetic NaN/Inf sources (a divisor or radicand that can be "
+                 "0/negative) inside the real kernels are obligations of the kernel checks C07-C10, where they count as violations."),
+    functions=GLUE_FUNCS_SYM + GLUE_FUNCS_GEN, stubs=GLUE_STUBS, assumptions=GLUE_ASSUME,
+    bounds={"quick": {"restart-size": "all legal (nev,ncv), ncv<=8, ncv-nev<=4 (restart itself for ncv<=5 / 4)", "whole runs": "(4,2,3),(6,1,3),(5,1,3) maxit 1; (6,2,5),(7,1,6) maxit 0"},
+            "thorough": {"whole runs": "+ (5,3,4),(6,2,5),(6,3,5),(7,1,6),(7,2,6) maxit 1"}},
+    outside=["NaN/Inf that arise from rounding or overflow", "sizes beyond the tables", "Ritz states with exact ties separating conjugate partners (see assumptions): state-level counterexamples exist there "
+             "(index ncv read in GenEigsBase::restart), not reproduced through the public API"],
+    policy=dict(events="violation", allow_cut=False),
+    technique="symbolic execution of the real restart-size / restart logic from arbitrary Ritz states and of whole runs over kernel contracts, under Eigen assertions + ASan/UBSan; z3 decides path feasibility",
+    level_text="bounded symbolic verification of index safety and the work bound of the restart logic for all Ritz states at ncv<=8; whole-run paths under sanitizers at small sizes",
+    level_note="kernels abstracted (their own memory safety is exercised by the real-kernel checks C07-C10 built with Eigen assertions); tie-separated conjugate pairs assumed away",
+)
